@@ -126,3 +126,7 @@ package dns
 //@   ensures len(ret0) == 16
 //@   pure
 //@   fresh
+
+//@ extern strings.Contains
+//@   ensures one: len(substr) == 1 ==> ret0 == (exists k in 0..len(s) :: s[k] == substr[0])
+//@   pure
